@@ -303,7 +303,9 @@ Definition rtsp_gate_short (m : mmsg) : bool :=
 (* FeedRtmpMsg *)
 Definition rtsp_feed (fx : fixes) (rf : rec_fns) (acfg : amf_cfg) (add : bool) (s : rtsp_st) (m : mmsg) : res (rtsp_st * list rtsp_ev) :=
   let p := mm_pay m in
-  if mm_type m =? t_meta then let* s' := rtsp_meta acfg s p in Ok (s', [])
+  if mm_type m =? t_meta then
+    (* metadata only guides the analysis; once the sdp has been handed out it is not even parsed (lal fix of C06) *)
+    if rs_done s then Ok (s, []) else let* s' := rtsp_meta acfg s p in Ok (s', [])
   else if rtsp_gate_short m then Ok (s, [])
   else
     let* s0 := rtsp_sniff_audio s m in
